@@ -55,7 +55,8 @@ PROBES = ['compile_after_reject_in_matrix', 'compile_after_reject_in_loop',
           'compile_after_reject_in_routine', 'compile_after_success',
           'rerun_after_finish', 'rerun_after_stop', 'rerun_after_abort',
           'reload_other_text', 'reload_rejected_text', 'time_pattern_union',
-          'abort_inside_printf', 'stopped_run_prefix_checked']
+          'abort_inside_printf', 'stopped_run_prefix_checked',
+          'fresh_interpreter_pair']
 WALL_CAP = {'quick': 150, 'thorough': 1500}
 TYPES = ('LightSetColor', 'LightSetPower', 'MultiZoneSetColorZones',
          'SetTileState64', 'LightGet')
@@ -231,7 +232,7 @@ def _exec_text(rng, pop, tick):
 
 
 def shrink(sc):
-    if sc['family'] == 'compile':
+    if sc['family'] in ('compile', 'xproc'):
         for i in range(len(sc['texts']) - 1, -1, -1):
             if len(sc['texts']) > 1:
                 c = copy.deepcopy(sc)
@@ -294,6 +295,91 @@ def compile_outcome(parser, text):
     if ok:
         return ('accepted', listing(parser.get_program()))
     return ('rejected', parser.get_errors())
+
+
+_CHILD = r'''
+import json, sys, warnings
+warnings.filterwarnings('ignore')
+sys.path[:0] = json.loads(sys.argv[1])
+from checks.c17_history import compile_outcome
+from bardolph.lib import injection
+from bardolph.runtime import runtime_module
+from bardolph.parser.parse import Parser
+injection.configure()
+runtime_module.configure()
+texts = json.loads(sys.stdin.read())
+print(json.dumps([compile_outcome(Parser(), t) for t in texts]))
+'''
+
+
+def _cross_process(sc, violation, probes, res):
+    """The shortest histories there are: the same texts compiled by fresh
+    Parser objects in two FRESH interpreters, in opposite orders.  Whatever a
+    text's result is, it may not depend on which texts the process compiled
+    before it (state kept at class or module level escapes every reference
+    object that lives in this process)."""
+    import subprocess
+    texts = sc['texts']
+    paths = [p for p in sys.path if p]
+    outs = []
+    for order in (list(range(len(texts))), list(range(len(texts)))[::-1]):
+        p = subprocess.run(
+            [sys.executable, '-c', _CHILD, json.dumps(paths)],
+            input=json.dumps([texts[i] for i in order]), text=True,
+            capture_output=True, timeout=120)
+        if p.returncode != 0:
+            res['harness_error'] = 'fresh interpreter failed: ' + \
+                p.stderr[-400:]
+            return
+        got = json.loads(p.stdout.strip().split('\n')[-1])
+        outs.append({order[k]: got[k] for k in range(len(texts))})
+    probes['fresh_interpreter_pair'] = 1
+    for i, t in enumerate(texts):
+        if outs[0][i] != outs[1][i]:
+            violation('compile/depends-on-process-history',
+                      'text #{} {!r}: compiled first-to-last in a fresh '
+                      'interpreter it is {}; compiled last-to-first in '
+                      'another fresh interpreter it is {}'.format(
+                          i, t[:100], _short(outs[0][i]),
+                          _short(outs[1][i])))
+            return
+
+
+def _short(outcome):
+    return '{} {}'.format(outcome[0], str(outcome[1])[:120])
+
+
+def extra_cases(tier):
+    """Fresh-interpreter pairs (a handful: each costs two interpreter
+    start-ups)."""
+    rng = random.Random(1717)
+    from gen import populations
+    from sim import policy
+    cases = []
+    fixed = ['assign Kelvin 5 hue Kelvin set all',
+             'kelvin 2700 set all',
+             'duration 2 on all',
+             'assign Duration 3 assign Time 4 println {Duration + Time}',
+             'define Hue 120 hue Hue set all',
+             'time 1 hue 10 saturation 20 brightness 30 set all',
+             'define floor 4 println floor',
+             'println [floor 2.5]',
+             'println "x"']
+    cases.append({'family': 'xproc', 'texts': fixed,
+                  'policy': policy.draw_policy(rng, est_len=10,
+                                               stalls=False)})
+    for k in range(2 if tier == 'quick' else 12):
+        pop = populations.gen_population(rng, 2, 4)
+        texts = []
+        for _ in range(6):
+            t, _m = scripts.gen_script(rng, pop, {'max_statements': 8})
+            texts.append(t)
+        texts += rng.sample(fixed, 3)
+        rng.shuffle(texts)
+        cases.append({'family': 'xproc', 'texts': texts,
+                      'policy': policy.draw_policy(rng, est_len=10,
+                                                   stalls=False)})
+    return cases
 
 
 def _compile_history(sc, violation, probes):
@@ -722,6 +808,13 @@ def _execute(scenario, chooser):
            'sim_time': 0.0, 'steps': 0, 'faults': {}, 'probes': probes,
            'deviations': [], 'harness_error': None,
            'shape': sc['family']}
+    if sc['family'] == 'xproc':
+        _cross_process(sc, violation, probes, res)
+        res['nontrivial'] = True
+        res['shape'] = 'xproc:{}'.format(len(sc['texts']))
+        res['sample'] = {'family': 'xproc',
+                         'texts': [t[:120] for t in sc['texts']]}
+        return res
     if sc['family'] == 'compile':
         _compile_history(sc, violation, probes)
         res['nontrivial'] = len(sc['texts']) >= 2
